@@ -23,8 +23,17 @@ template <class T> typename std::enable_if<std::is_integral<T>::value && !std::i
 }
 template <class T> typename std::enable_if<std::is_floating_point<T>::value, int>::type n_(T*, rank<8>) { return 4; }
 template <class T> typename std::enable_if<std::is_floating_point<T>::value, T>::type get_(T*, int k, rank<8>) { static const float v[4] = {1.0f, 5.5f, 11.0f, 54.0f}; return (T)v[k % 4]; }
-template <class T> typename std::enable_if<std::is_enum<T>::value, int>::type n_(T*, rank<8>) { return 4; }
-template <class T> typename std::enable_if<std::is_enum<T>::value, T>::type get_(T*, int k, rank<8>) { return static_cast<T>(k % 4); }
+// enumerations: the declared enumerators are the in-range values (generated lists); unknown enums fall back to 0..3
+template <class T> struct EnumValues { static std::vector<T> get() { return std::vector<T>(); } };
+#define API_ENUM_BEGIN(Q) template <> struct EnumValues<Q> { static std::vector<Q> get() { std::vector<Q> v; std::set<long long> seen;
+#define API_ENUMERATOR(Q, E) if (seen.insert((long long)E).second && v.size() < 8) v.push_back(E);
+#define API_ENUM_END(Q) return v; } };
+#include "api.inc"
+#undef API_ENUM_BEGIN
+#undef API_ENUMERATOR
+#undef API_ENUM_END
+template <class T> typename std::enable_if<std::is_enum<T>::value, int>::type n_(T*, rank<8>) { int n = (int)EnumValues<T>::get().size(); return n ? n : 4; }
+template <class T> typename std::enable_if<std::is_enum<T>::value, T>::type get_(T*, int k, rank<8>) { std::vector<T> v = EnumValues<T>::get(); return v.empty() ? static_cast<T>(k % 4) : v[k % v.size()]; }
 template <size_t n> int n_(Tins::small_uint<n>*, rank<9>) { return n == 1 ? 2 : 5; }
 template <size_t n> Tins::small_uint<n> get_(Tins::small_uint<n>*, int k, rank<9>) {
     typedef typename Tins::small_uint<n>::repr_type R;
